@@ -256,6 +256,23 @@ struct Prim : Node
     // local membership + proximity
     virtual void local(Vec3 const& p, bool& in, double& prox) const = 0;
 
+    //// input-class helpers (used only to NAME the site of a violation, never to judge) ////
+    // coarse shape family: sphere | revolution | prism | other
+    virtual char const* family() const { return "other"; }
+    // radii of the coaxial curved surfaces (cylinders / cone ends) this object is built from
+    virtual std::vector<double> coaxial_radii() const { return {}; }
+    // smallest |r1^2 - r2^2| between two distinct coaxial radii (big if fewer than two)
+    double coaxial_r2_gap() const
+    {
+        auto r = this->coaxial_radii();
+        double gap = big;
+        for (std::size_t i = 0; i < r.size(); ++i)
+            for (std::size_t j = i + 1; j < r.size(); ++j)
+                if (r[i] != r[j])
+                    gap = std::min(gap, std::fabs(r[i] * r[i] - r[j] * r[j]));
+        return gap;
+    }
+
     Ev eval(Vec3 const& p) const final
     {
         Ev e;
@@ -307,6 +324,7 @@ struct PSphere : Prim
         label = std::move(l);
         kind = "sphere";
     }
+    char const* family() const override { return "sphere"; }
     void local(Vec3 const& p, bool& in, double& prox) const override
     {
         double d = norm(p);
@@ -363,6 +381,7 @@ struct PCyl : Prim
         label = std::move(l);
         kind = "cyl";
     }
+    char const* family() const override { return "revolution"; }
     void local(Vec3 const& p, bool& in, double& prox) const override { cyl_local(p, r, hh, in, prox); }
     SPObj make() const override
     {
@@ -379,6 +398,7 @@ struct PCone : Prim
         label = std::move(l);
         kind = (a == 0 || b == 0) ? "cone-apex" : "cone";
     }
+    char const* family() const override { return "revolution"; }
     void local(Vec3 const& p, bool& in, double& prox) const override
     {
         cone_local(p, lo, hi, hh, in, prox);
@@ -429,6 +449,7 @@ struct PPrism : Prim
         label = std::move(l);
         kind = "prism";
     }
+    char const* family() const override { return "prism"; }
     void local(Vec3 const& p, bool& in, double& prox) const override
     {
         prism_local(p, n, a, hh, orient, in, prox);
@@ -511,7 +532,12 @@ struct PGenPrism : Prim
         label = std::move(l);
         kind = "genprism";
     }
-    void finalize(double twist_class_threshold = 1e-3)
+    // A face whose lower and upper edges enclose an angle theta is built as a *plane* by
+    // GenPrism::build when cos(theta) is soft-equal to 1 at the construction tolerance, i.e.
+    // theta < sqrt(2 rel) (1.4e-4 at the default tolerance, 4.5e-3 at rel = 1e-5, the loosest
+    // tolerance generated): the known "smalltwist" defect.  A prism is classified by its
+    // *smallest* non-zero face twist, since one planarised face is enough.
+    void finalize(double twist_class_threshold = 5e-3)
     {
         // orientation from the signed area of the larger polygon
         auto area = [](std::vector<std::array<double, 2>> const& v) {
@@ -528,7 +554,7 @@ struct PGenPrism : Prim
         double a = std::fabs(al) > std::fabs(ah) ? al : ah;
         orient = a >= 0 ? 1 : -1;
         // classify
-        double maxtw = 0;
+        double maxtw = 0, mintw = 1e300;
         for (std::size_t i = 0; i < lo.size(); ++i)
         {
             std::size_t j = (i + 1) % lo.size();
@@ -536,11 +562,16 @@ struct PGenPrism : Prim
             double fx = hi[j][0] - hi[i][0], fy = hi[j][1] - hi[i][1];
             double ne = std::hypot(ex, ey), nf = std::hypot(fx, fy);
             if (ne > 0 && nf > 0)
-                maxtw = std::max(maxtw, std::fabs(ex * fy - ey * fx) / (ne * nf));
+            {
+                double tw = std::fabs(ex * fy - ey * fx) / (ne * nf);
+                maxtw = std::max(maxtw, tw);
+                if (tw > 1e-12)  // above rounding of the vertex coordinates
+                    mintw = std::min(mintw, tw);
+            }
         }
-        if (maxtw == 0)
+        if (maxtw <= 1e-12)
             kind = via == Via::trd ? "genprism-trd" : via == Via::trap ? "genprism-trap" : "genprism-planar";
-        else if (maxtw < twist_class_threshold)
+        else if (mintw < twist_class_threshold)
             kind = "genprism-smalltwist";
         else
             kind = "genprism-twisted";
@@ -693,6 +724,30 @@ struct PSolid : Prim
     Angle ang;
 
     PSolid(std::string l, K kk) : k(kk) { label = std::move(l); }
+    char const* family() const override
+    {
+        return k == K::sphere ? "sphere" : k == K::prism ? "prism" : "revolution";
+    }
+    std::vector<double> coaxial_radii() const override
+    {
+        std::vector<double> r;
+        if (k == K::cyl)
+        {
+            r.push_back(in_[0]);
+            if (hollow)
+                r.push_back(ex_[0]);
+        }
+        else if (k == K::cone)
+        {
+            r = {in_[0], in_[1]};
+            if (hollow)
+            {
+                r.push_back(ex_[0]);
+                r.push_back(ex_[1]);
+            }
+        }
+        return r;
+    }
     void finalize()
     {
         static char const* const names[] = {"cone", "cyl", "prism", "sphere"};
@@ -789,6 +844,17 @@ struct PPoly : Prim
     PPoly(std::string l, bool is_prism) : prism(is_prism)
     {
         label = std::move(l);
+    }
+    char const* family() const override { return prism ? "prism" : "revolution"; }
+    std::vector<double> coaxial_radii() const override
+    {
+        std::vector<double> r;
+        if (!prism)
+        {
+            r = outer;
+            r.insert(r.end(), inner.begin(), inner.end());
+        }
+        return r;
     }
     void finalize()
     {
